@@ -17,7 +17,7 @@ ASSUMPTIONS = ["grammars: extracted (real extract) from an E1(m, n) tree r times
                "LABEL<fanout>(args))"]
 OUTSIDE = ["labels with parentheses or a trailing digit", "grammars from more than two distinct trees"]
 ENCS = ["utf-8", "latin-1", "utf-16"]
-WORDS = ["a", "b", "Ä", "Haus", "a"]
+WORDS = ["a", "USA", "Ä", "Haus", "a"]
 POS = ["P", "Q", "P", "Q", "Q"]
 MODES = ["raw", "leftright", "optimal", "markov"]
 
@@ -30,7 +30,7 @@ def normlex(lex):
     return dict((w, dict(c)) for w, c in lex.items())
 
 
-def make(m, n, ip, lp, r, mode):
+def make(m, n, ip, lp, r, mode, scale=1):
     g, lex = {}, {}
     for _ in range(r):
         nodes, leaves = build_e1(m, n, ip, lp, labels=["R", "X", "X", "Y"][:m], pos=POS[:n], words=WORDS[:n])
@@ -44,6 +44,14 @@ def make(m, n, ip, lp, r, mode):
         g = grammar.binarize(g, reordering=grammar.reordering_optimal, markov_opts=None)
     elif mode == 3:
         g = grammar.binarize(g, reordering=grammar.reordering_none, markov_opts={'v': 1, 'h': 1})
+    if scale != 1:          # counts of two digits and more
+        for f in g:
+            for l in g[f]:
+                for v in g[f][l]:
+                    g[f][l][v] *= scale
+        for w in lex:
+            for t in lex[w]:
+                lex[w][t] *= scale
     return g, lex
 
 
@@ -137,11 +145,11 @@ def split_lexrules(g, words):
     return gg, lex
 
 
-def files(m, n, r, mode, fmt, enc, lig, **kw):
+def files(m, n, r, mode, fmt, enc, lig, big=False, **kw):
     """write with the real writer, decode with the harness decoder and (rcg) with the tool's own reader"""
     stubs.install()
     ip, lp = e1_get(kw, m, n)
-    g, lex = make(m, n, ip, lp, r, mode)
+    g, lex = make(m, n, ip, lp, r, mode, 7 if big else 1)
     want_g, want_lex = norm(g), normlex(lex)
     e = ENCS[enc]
     params = {'lex_in_grammar': True} if lig else {}
@@ -225,11 +233,11 @@ def files(m, n, r, mode, fmt, enc, lig, **kw):
     return ""
 
 
-def cmd(m, n, r, mode, dfmt, enc, lig=False, **kw):
+def cmd(m, n, r, mode, dfmt, enc, lig=False, big=False, **kw):
     """`treetools grammar` with a grammar file as input: the written grammar equals the input grammar"""
     stubs.install()
     ip, lp = e1_get(kw, m, n)
-    g, lex = make(m, n, ip, lp, r, mode)
+    g, lex = make(m, n, ip, lp, r, mode, 7 if big else 1)
     e = ENCS[enc]
     grammaroutput.rcg(copy.deepcopy(g), copy.deepcopy(lex), "in/g", e)
     args = argparse.Namespace(src="in/g", dest="out/g", gramtype="treebank", markov=None, src_format="rcg", src_enc=e,
@@ -276,15 +284,15 @@ def conds(tier):
     q = tier == "quick"
     cs = []
     for (m, n) in ([(2, 2), (2, 3), (2, 4)] if q else [(2, 2), (2, 3), (2, 4), (3, 3), (3, 4), (2, 5)]):
-        ps = e1_params(m, n) + [P("r", "int", 1, 3), P("mode", "int", 0, 4), P("fmt", "int", 0, 3), P("enc", "int", 0, 3), P("lig", "bool")]
+        ps = e1_params(m, n) + [P("r", "int", 1, 3), P("mode", "int", 0, 4), P("fmt", "int", 0, 3), P("enc", "int", 0, 3), P("lig", "bool"), P("big", "bool")]
         cs.append(Cond("files-m%d-n%d" % (m, n), "harness.c09:files", ps, fixed={"m": m, "n": n},
-                       pre=[e1_wf_expr(m, n), "fmt < 2 or not lig"] + (["enc == (fmt + mode) % 3 and (r == 1 or mode == 0)"] if q else []),
+                       pre=[e1_wf_expr(m, n), "fmt < 2 or not lig"] + (["enc == (fmt + mode) % 3 and (r == 1 or mode == 0) and big == (r == 2 or mode == 1)"] if q else ["not big or r == 1"]),
                        shard=["fmt", "mode"] + (["lig"] if m * n >= 8 else []) + ([] if q else ["enc"]),
                        skip=lambda sf: sf["fmt"] == 2 and sf.get("lig", False), timeout=600 if q else 3000, functions=FUNCS))
     for (m, n) in ([(2, 3)] if q else [(2, 3), (2, 4), (3, 4)]):
-        ps = e1_params(m, n) + [P("r", "int", 1, 3), P("mode", "int", 0, 4), P("dfmt", "int", 0, 2), P("enc", "int", 0, 3), P("lig", "bool")]
+        ps = e1_params(m, n) + [P("r", "int", 1, 3), P("mode", "int", 0, 4), P("dfmt", "int", 0, 2), P("enc", "int", 0, 3), P("lig", "bool"), P("big", "bool")]
         cs.append(Cond("cmd-m%d-n%d" % (m, n), "harness.c09:cmd", ps, fixed={"m": m, "n": n},
-                       pre=[e1_wf_expr(m, n)] + (["enc == mode % 3 and r == 1"] if q else []), shard=["mode", "dfmt"],
+                       pre=[e1_wf_expr(m, n)] + (["enc == mode % 3 and r == 1 and big == lig"] if q else ["not big or r == 1"]), shard=["mode", "dfmt"],
                        timeout=600 if q else 3000, functions=FUNCS[5:6] + FUNCS[:4]))
     for n in ([1, 2, 3] if q else [1, 2, 3, 4]):
         cs.append(Cond("strip-n%d" % n, "harness.c09:strip", [P("x%d" % i, "int", 0, len(STRIPALPHA)) for i in range(1, n + 1)] +
